@@ -204,6 +204,34 @@ func (st *state) handle(ctx *app.RequestContext) {
 		// the chunked writer installed, the body set with the string setter
 		ctx.Response.HijackWriter(resp.NewChunkedBodyWriter(&ctx.Response, ctx.GetWriter()))
 		ctx.Response.SetBodyString(string(b))
+	case "chunkw-stream", "chunkw-raw", "chunkw-file":
+		// the chunked writer installed (by a middleware, say), the body given the other ways
+		ctx.Response.HijackWriter(resp.NewChunkedBodyWriter(&ctx.Response, ctx.GetWriter()))
+		switch {
+		case p.Mode == "chunkw-raw":
+			ctx.Response.SetBodyRaw(b)
+		case p.Mode == "chunkw-file":
+			ctx.File(filePath(p.Size))
+			ctx.SetStatusCode(p.Status)
+		case p.Seed%2 == 0:
+			ctx.SetBodyStream(&shortReader{b, r}, p.Size)
+		default:
+			ctx.SetBodyStream(&shortReader{b, r}, -1)
+		}
+	case "chunkw-abort":
+		// a streaming handler whose producer fails after the first piece went out: the
+		// documented way to fail a request is AbortWithMsg
+		ctx.Response.HijackWriter(resp.NewChunkedBodyWriter(&ctx.Response, ctx.GetWriter()))
+		k := len(b) / 2
+		ctx.Write(b[:k])
+		if p.Seed%2 == 0 {
+			ctx.Flush()
+		}
+		ctx.AbortWithMsg(string(b[k:]), 500)
+	case "unknown-length":
+		// the documented "length unknown" marker on the header, then a body (or none, for HEAD)
+		ctx.Response.Header.SetContentLength(-2)
+		ctx.Response.SetBody(b)
 	case "append":
 		for _, n := range p.Writes {
 			if n < 0 {
@@ -273,7 +301,7 @@ func (st *state) handle(ctx *app.RequestContext) {
 	}
 }
 
-var modes = []string{"none", "setbody", "string", "data", "append", "stream-known", "stream-unknown", "stream-limited", "chunkw", "chunkw", "json", "redirect", "file", "abortmsg", "setbodyraw", "raw-append", "chunkw-string"}
+var modes = []string{"none", "setbody", "string", "data", "append", "stream-known", "stream-unknown", "stream-limited", "chunkw", "chunkw", "json", "redirect", "file", "abortmsg", "setbodyraw", "raw-append", "chunkw-string", "chunkw-stream", "chunkw-raw", "chunkw-file", "chunkw-abort", "unknown-length"}
 
 // files of the sizes the programs use, created once per worker process
 var fileDir string
@@ -298,7 +326,7 @@ func wantBody(p prog, id int) []byte {
 		return b
 	case "redirect":
 		return nil
-	case "file":
+	case "file", "chunkw-file":
 		return fileBody(p.Size)
 	}
 	return wire.PosBody(id, p.Size)
@@ -334,8 +362,11 @@ func oneConn(w *mon.W, c *mon.Case, e *route.Engine, st *state, lb *loop.Server)
 			}
 		}
 		p.Reuse = p.Mode == "chunkw" && r.Chance(3)
-		if (p.Mode == "chunkw" || p.Mode == "chunkw-string") && mustNoBody(p) {
+		if strings.HasPrefix(p.Mode, "chunkw") && mustNoBody(p) {
 			p.Mode = "setbody" // documented exclusion
+		}
+		if p.Mode == "chunkw-abort" && p.Size < 2 {
+			p.Mode = "chunkw-string"
 		}
 		for k := r.Intn(3); k > 0; k-- {
 			p.Hdrs = append(p.Hdrs, [2]string{r.Str("X-A", "X-B", "Set-Cookie", "Cache-Control", "X-A"), r.Str("v1", "a=b; Path=/", "no-cache", "x, y", "")})
@@ -343,6 +374,9 @@ func oneConn(w *mon.W, c *mon.Case, e *route.Engine, st *state, lb *loop.Server)
 		p.Trailer = r.Chance(4)
 		if r.Chance(6) {
 			p.BigHead = r.Int(3900, 4096, 5000, 8192, 9000, 13000)
+		}
+		if p.Mode == "unknown-length" && i != n-1 {
+			p.Mode = "setbody" // (the marker also asks for the connection to be closed: last request only)
 		}
 		p.Close = i == n-1 && r.Chance(3)
 		p.HTTP10 = r.Chance(6)
@@ -529,6 +563,10 @@ func compare(m *wire.Message, p prog, id int) string {
 		if loc, _ := m.Get("Location"); loc != "/to/"+strconv.Itoa(id) {
 			return fmt.Sprintf("Location %q want /to/%d", loc, id)
 		}
+	}
+	if p.Mode == "chunkw-abort" && bytes.Equal(m.Body, want[:len(want)/2]) {
+		// (the message may also end with what had been written when the handler gave up)
+		want = m.Body
 	}
 	if !bytes.Equal(m.Body, want) {
 		return fmt.Sprintf("body %d bytes want %d (framing %s, chunks %v)", len(m.Body), len(want), m.Framing, trunc(fmt.Sprint(m.Chunks), 100))
